@@ -231,6 +231,7 @@ func (e *reuseEngine) Generate(seed uint64, tier string, run int) (json.RawMessa
 		c.Ops = append(c.Ops, ReuseOp{K: "cachesize", N: kernel.Pick(rk, []int{1, 2, 3, 8})})
 	}
 	maxLen := kernel.Pick(rk, []int{8, 24, 64, 200})
+	lastFaceq := map[int]ReuseOp{}
 	for len(c.Ops) < nOps {
 		k := kinds[rg.Weighted(weights)]
 		f := rg.Intn(len(c.Faces))
@@ -354,6 +355,15 @@ func (e *reuseEngine) Generate(seed uint64, tier string, run int) (json.RawMessa
 			op.N = rg.Range(1, 5)
 		}
 		c.Ops = append(c.Ops, op)
+		switch k {
+		case "faceq":
+			lastFaceq[f] = op
+		case "facevar", "facecoords", "faceppem":
+			// query again what was queried before the in-place change: the memoised values must be gone
+			if q, ok := lastFaceq[f]; ok && rg.Chance(0.7) {
+				c.Ops = append(c.Ops, q)
+			}
+		}
 	}
 	return json.Marshal(c)
 }
